@@ -101,6 +101,8 @@ def gen_bam(rng, in_pre=True):
                    mp={'mp_multi': 'multi', 'mp_unique': 'unique'}.get(kind, ''), key=rng.choice(['ref', 'alt', 'alt', 'None']),
                    clip=rng.choice([0, 0, 0, 2, 5]),
                    proper=rng.random() < 0.8)
+        if rng.random() < 0.08:       # no DS tag: the site is the start of the (forward) alignment
+            r.update(nods=True, site=r['rstart'])
         recs.append(r)
         if rng.random() < 0.6:                                        # the mate: never counted
             m = dict(r, r1=False, site=rng.randrange(ln))
@@ -153,7 +155,9 @@ def write_bam(path, bam, fi=1):
         names.setdefault(r['name'], []).append(r)
     for r in mine:
         mates = [x for x in names[r['name']] if x is not r]
-        tags = {'SM': r['sample'], 'DS': r['site']}
+        tags = {'SM': r['sample']}
+        if not r.get('nods'):
+            tags['DS'] = r['site']
         if r['key'] != 'None':        # key 'None': the record has no allele tag (the bin id then carries None)
             tags['DA'] = r['key']
         if r['mp']:
@@ -182,9 +186,10 @@ def run_counts(bbc, path, cfg, pool, threads, order_seed):
             cmds = bbc.generate_commands(path, bin_size=cfg['bin'], bins_per_job=cfg['bpj'],
                                          min_mq=None if cfg.get('mq_none') else cfg['minmq'],
                                          max_fragment_size=cfg['mfs'], key_tags=['DA'] if cfg['usekey'] else None,
-                                         dedup=cfg['dedup'], **extra)
+                                         dedup=cfg['dedup'], skip_contigs=cfg.get('skip') or None, **extra)
             counts = bbc.obtain_counts(cmds, reference=None, live_update=False, threads=threads,
-                                       show_progress=bool(cfg.get('progress')))
+                                       show_progress=bool(cfg.get('progress')),
+                                       count_function=bbc.count_fragments_binned if cfg.get('progress') else None)
         for bin_id, sd in counts.items():
             bin_id = list(bin_id)
             key = str(bin_id[0]) if cfg['usekey'] else ''
@@ -199,12 +204,18 @@ def run_counts(bbc, path, cfg, pool, threads, order_seed):
     return raised, rows
 
 
-def run_gbc(bbc, path, binsz, regions):
+def default_filter(R1, R2):
+    """A user supplied filter_function with the meaning of get_binned_counts' built-in default."""
+    return not (R1 is None or R1.is_duplicate or R1.is_qcfail)
+
+
+def run_gbc(bbc, path, binsz, regions, use_filter=False):
     raised, rows = '', []
     multiprocessing.Pool = FakePool
     try:
         with contextlib.redirect_stdout(io.StringIO()):
-            df = bbc.get_binned_counts(path if isinstance(path, list) else [path], binsz, regions=regions, n_threads=1)
+            df = bbc.get_binned_counts(path if isinstance(path, list) else [path], binsz, regions=regions, n_threads=1,
+                                       filter_function=default_filter if use_filter else None)
         for idx, row in df.iterrows():
             for sample, v in row.items():
                 if v == v and v != 0:
@@ -254,8 +265,8 @@ def main():
                 state['group'] = case['group']
                 run(case['cfg'], case['pool'], case['threads'], case['order_seed'])
             else:
-                regions = [tuple(r) for r in case['region_list']] if case['regions'] != 'none' else None
-                raised, rows = run_gbc(bbc, path, case['bin'], regions)
+                regions = ([tuple(r) if isinstance(r, list) else r for r in case['region_list']] or None)
+                raised, rows = run_gbc(bbc, path, case['bin'], regions, use_filter=case.get('user_filter', False))
                 emit({'ev': 'gbc', 'bin': case['bin'], 'regions': case['regions'], 'region_list': case['region_list'],
                       'raised': raised, 'counts': rows})
         else:
@@ -280,7 +291,7 @@ def main():
                 for gk, cfgs in sorted(groups.items()):
                     state['group'] += 1
                     for c in cfgs:
-                        run(c, 'fake', 1, rng.randrange(1 << 30))
+                        run(dict(c, skip=[]), 'fake', 1, rng.randrange(1 << 30))
             # (2) random BAMs x job partitions x schedules
             nbam, npart, nreal = (40, 8, 1) if tier == 'quick' else (600, 16, 2)
             for b in range(nbam):
@@ -293,7 +304,9 @@ def main():
                 maxbpj = max(bam['lens']) // binsz + 2
                 bpjs = [1, maxbpj] + [rng.randint(1, maxbpj) for _ in range(npart - 2)]
                 base = {'bin': binsz, 'mfs': mfs, 'minmq': minmq, 'dedup': rng.random() < 0.85, 'kwargs': 'empty',
-                        'usekey': usekey}
+                        'usekey': usekey, 'skip': []}
+                if len(bam['contigs']) > 1 and rng.random() < 0.25:
+                    base['skip'] = rng.sample(bam['contigs'], rng.choice([1, 1, 2]))[:len(bam['contigs']) - 1]
                 if minmq == 0 and rng.random() < 0.5:
                     base['mq_none'] = True          # min_mq=None: no threshold (same meaning as 0)
                 for i, bpj in enumerate(bpjs):
@@ -304,8 +317,12 @@ def main():
                     state['group'] += 1
                     run(dict(base, bpj=rng.choice(bpjs), kwargs='none'), 'fake', 1, 0)
                 # get_binned_counts: one job per contig, and (extension) adjacent user regions
-                raised, rows = run_gbc(bbc, path, binsz, None)
-                emit({'ev': 'gbc', 'bin': binsz, 'regions': 'none', 'region_list': [], 'raised': raised, 'counts': rows})
+                # whole contigs: regions=None, or every contig given by name; built-in filter or an equivalent user filter
+                names = list(bam['contigs']) if b % 3 == 1 else None
+                uf = b % 4 == 2
+                raised, rows = run_gbc(bbc, path, binsz, list(names) if names else None, use_filter=uf)      # the callee rewrites the list
+                emit({'ev': 'gbc', 'bin': binsz, 'regions': 'none', 'region_list': names or [], 'user_filter': uf,
+                      'raised': raised, 'counts': rows})
                 if b % 2 == 0:
                     regs = tiling(rng, bam)
                     raised, rows = run_gbc(bbc, path, binsz, [tuple(r) for r in regs])
